@@ -46,7 +46,7 @@ def tail_fns(facts):
     return out
 
 
-def classify(f, op, own_tail):
+def classify(f, op, own_tail, site_bb=None):
     o = f.origin(op)
     if o[0] == "const":
         v = o[1].get("int")
@@ -54,6 +54,12 @@ def classify(f, op, own_tail):
     if o[0] == "arg" and own_tail is not None and o[1] == own_tail and not o[2]:
         return "PARAM"
     if o[0] == "call" and callee(o[1]) == CELL_IS_NIL:
+        # `is the rest of the body empty?` has to be asked anew for every body expression: inside the loop that compiles them
+        if site_bb is not None:
+            for src, h in f.back_edges():
+                body = (f.reach_from(h) & f.reach_back(src)) | {h, src}
+                if site_bb in body and o[3] not in body:
+                    return "OTHER"
         return "LAST"
     return "OTHER"
 
@@ -86,7 +92,7 @@ def r04a(ctx, rep, as_rule="R04a", want=("tail",)):
             c = callee(t)
             if c in tf:
                 nsites += 1
-                cls = classify(f, t["args"][tf[c] - 1], tf.get(p))
+                cls = classify(f, t["args"][tf[c] - 1], tf.get(p), bb)
                 per.setdefault(p, []).append((cls, t, c))
     for p, sites in sorted(per.items()):
         name = p.rsplit("::", 1)[-1]
@@ -376,13 +382,47 @@ def r04f(ctx, rep, rule="R04f"):
                                      "merged from several definitions): the executed instruction can differ from the emitted one", [f.span])
 
 
+def r04g(ctx, rep, rule="R04g"):
+    facts = ctx["facts"]
+    rep.rule(rule, "the consequent of `if` always jumps over the alternate: in compile_if every path from the compilation of the "
+             "consequent to the successful return emits OpCode::Jmp. Whether control comes back after a tail call depends on "
+             "what the operator is at run time (a builtin called with TCALL runs inside the instruction and continues with the "
+             "next one), so eliding the jump for calls that `never return` lets such a call fall through into the alternate, "
+             "whose value replaces the tail call's.")
+    f = need(rep, rule, facts, COMPILE + "compile_if")
+    if f is None:
+        return
+    tf = tail_fns(facts)
+    own = tf.get(f.path)
+    sites = [(bb, t) for bb, t in f.calls() if callee(t) in tf and classify(f, t["args"][tf[callee(t)] - 1], own, bb) == "PARAM"]
+    jmps = {bb for bb, j, st in f.stmts() if st["rv"]["k"] == "agg" and (st["rv"].get("adt") or "").endswith("opcode::OpCode") and st["rv"].get("variant") == "Jmp"}
+    oks = {bb for bb, j, st in f.stmts() if st["lhs"]["l"] == 0 and not st["lhs"]["p"] and st["rv"]["k"] == "agg" and st["rv"].get("variant") == "Ok"}
+    if len(sites) < 2 or not jmps or not oks:
+        rep.anchor_lost(rule, "consequent/alternate compilation (%d), Jmp emission (%d) or Ok return (%d) in compile_if" % (len(sites), len(jmps), len(oks)))
+        return
+    # the consequent is the PARAM site that can reach the other one
+    cons = [(bb, t) for bb, t in sites if any(b2 != bb and b2 in f.reach_from(bb) for b2, _ in sites)]
+    bb, t = (cons or sites)[0]
+    start = t.get("target")
+    reach = f.reach_from(start, avoid=jmps) if start is not None else set()
+    key = rule + "|compile_if|jmp-after-consequent"
+    if reach & oks:
+        rep.fail(rule, key, "compile_if can finish without emitting the JMP over the alternate after the consequent: where the "
+                 "consequent's call returns into the instruction stream (a builtin reached through TCALL) execution falls into the "
+                 "alternate and its value replaces the call's", [t["loc"]])
+    else:
+        rep.ok(rule, key, "every successful path through compile_if emits JMP after the consequent", [f.span])
+
+
 def run(ctx, rep):
     r04a(ctx, rep)
     r04b(ctx, rep)
     r04c(ctx, rep)
     r04e(ctx, rep)
     r04f(ctx, rep)
+    r04g(ctx, rep)
     from . import prelude
     prelude.r04d(ctx, rep)
+    prelude.r01p(ctx, rep, rule="R04h")
     rep.not_decided += ["stack-pointer arithmetic being off by a constant inside a bp-relative handler",
                         "measured stack depth for concrete n", "value equality with the non-tail equivalent"]
